@@ -99,6 +99,9 @@ func c19Build(d *DescC19) (scte35.SegmentationDescriptor, *hx.Failure) {
 	w.HasSub = d.HasSub && (d.Type == 0x34 || d.Type == 0x36)
 	w.SubNum, w.SubExpected = d.SubNum, d.SubExp
 	w.Cancel = false
+	if over := len(w.Bytes()) - 2 - 255; over > 0 && len(w.UPID) >= over {
+		w.UPID = w.UPID[:len(w.UPID)-over] // descriptor_length is one byte
+	}
 	m := ref.Splice{TableID: 0xFC, Tier: 0xFFF, Descs: []ref.SpliceDesc{w}}
 	if d.HasPTS {
 		m.Cmd, m.TSHasPTS, m.TSPTS = 0x06, true, d.PTS
@@ -283,8 +286,18 @@ func TestC19ExhaustiveGrid(t *testing.T) {
 				if got := da.CanClose(db); got != want {
 					in.Type, open.Type = byte(ti), byte(to)
 					in.HasSub = sub
-					f := propC19.Eval(CaseC19{A: in, B: open, C: open})
-					t.Fatalf("VIOLATION-CANDIDATE property=C19 key=canclose: incoming %#x open %#x eventEq=%v ptsEq=%v numEq=%v sub=%v: CanClose=%v, rule table says %v (case oracle: %v)", ti, to, eventEq, ptsEq, numEq, sub, got, want, f)
+					if f := propC19.Eval(CaseC19{A: in, B: open, C: open}); f == nil {
+						// not reproducible with fresh objects: the answer depends on the object's history (it was re-typed from ti-1)
+						prev := byte(ti - 1)
+						if ti == 0 {
+							prev = 0
+						}
+						rc := CaseC19R{Open: open, Steps: []StepC19R{{Type: prev, Event: in.Event, Num: in.Num, Exp: in.Exp}, {Type: byte(ti), Event: in.Event, Num: in.Num, Exp: in.Exp}}}
+						rc.Open.Type = byte(to)
+						propC19R.Eval(rc)
+						hx.DumpReplay("C19", "retyped", rc, hx.Failf("canclose-retyped", "grid: object re-typed from %#x to %#x answers CanClose(%#x) = %v, rule table says %v", prev, ti, to, got, want))
+					}
+					t.Fatalf("VIOLATION-CANDIDATE property=C19 key=canclose: incoming %#x open %#x eventEq=%v ptsEq=%v numEq=%v sub=%v: CanClose=%v, rule table says %v", ti, to, eventEq, ptsEq, numEq, sub, got, want)
 				}
 				n++
 				if ref.CloseRule(byte(ti), byte(to)) != 0 {
@@ -362,4 +375,106 @@ func TestC19ExhaustiveEqual(t *testing.T) {
 func FuzzC19(f *testing.F) {
 	c19Rule()
 	f.Fuzz(propC19.Fuzz())
+}
+
+// ---------------------------------------------------------------------------
+// one descriptor object re-typed and re-configured through its setters between
+// queries: the closing relation must follow the CURRENT field values
+
+type StepC19R struct {
+	Type    byte   `json:"type"`
+	Event   uint32 `json:"event"`
+	Num     byte   `json:"num"`
+	Exp     byte   `json:"exp"`
+	SkipSet bool   `json:"skip_set"` // leave segment number / expected untouched in this step
+}
+
+type CaseC19R struct {
+	Open  DescC19    `json:"open"`
+	Steps []StepC19R `json:"steps"`
+	Fresh bool       `json:"fresh"` // never call the segment setters when the wanted value is the default 0
+}
+
+func genC19R(t *rapid.T) CaseC19R {
+	c := CaseC19R{Open: genDescC19(t, "open", nil)}
+	c.Open.HasPTS = true
+	c.Fresh = rapid.Bool().Draw(t, "fresh")
+	n := rapid.IntRange(1, 8).Draw(t, "nsteps")
+	for i := 0; i < n; i++ {
+		st := StepC19R{}
+		if rapid.Bool().Draw(t, "step-type-po") {
+			st.Type = rapid.SampledFrom([]byte{0x34, 0x36, 0x35, 0x37}).Draw(t, "step-type-po-v")
+		} else {
+			st.Type = rapid.SampledFrom(segTypesNamed).Draw(t, "step-type")
+		}
+		st.Event = uint32(rapid.IntRange(1, 2).Draw(t, "step-event"))
+		st.Num = byte(rapid.IntRange(0, 2).Draw(t, "step-num"))
+		st.Exp = byte(rapid.IntRange(0, 2).Draw(t, "step-exp"))
+		st.SkipSet = rapid.IntRange(0, 3).Draw(t, "step-skip") == 0
+		c.Steps = append(c.Steps, st)
+	}
+	if rapid.Bool().Draw(t, "open-po") {
+		c.Open.Type = rapid.SampledFrom([]byte{0x34, 0x36, 0x30, 0x3C, 0x44}).Draw(t, "open-type")
+	}
+	c.Open.Event = uint32(rapid.IntRange(1, 2).Draw(t, "open-event"))
+	return c
+}
+
+func checkC19R(c CaseC19R, x *hx.Ctx) *hx.Failure {
+	open, f := c19Build(&c.Open)
+	if f != nil {
+		return f
+	}
+	myPTS := (c.Open.PTS + 1000) & (1<<33 - 1)
+	sig := c19Sig(myPTS, true)
+	d := scte35.CreateSegmentationDescriptor()
+	sig.SetDescriptors([]scte35.SegmentationDescriptor{d})
+	cur := DescC19{HasPTS: true, PTS: myPTS}
+	x.NT(len(c.Steps) >= 2)
+	x.Label("retyped-object")
+	var hist []string
+	for i, st := range c.Steps {
+		d.SetTypeID(scte35.SegDescType(st.Type))
+		d.SetEventID(st.Event)
+		cur.Type, cur.Event = st.Type, st.Event
+		if !st.SkipSet {
+			if !(c.Fresh && st.Num == 0 && cur.Num == 0) {
+				d.SetSegmentNumber(st.Num)
+			}
+			if !(c.Fresh && st.Exp == 0 && cur.Exp == 0) {
+				d.SetSegmentsExpected(st.Exp)
+			}
+			cur.Num, cur.Exp = st.Num, st.Exp
+		}
+		hist = append(hist, fmt.Sprintf("{type %#x event %d seg %d/%d}", cur.Type, cur.Event, cur.Num, cur.Exp))
+		want := c19RefCanClose(&cur, &c.Open)
+		if got := d.CanClose(open); got != want {
+			return hx.Failf("canclose-retyped", "step %d: descriptor configured as %v (history %v) CanClose open %#x (event %d) = %v, rule table says %v", i, hist[len(hist)-1], hist, c.Open.Type, c.Open.Event, got, want)
+		}
+		// and the other direction, with the re-typed object as the open one
+		want2 := c19RefCanClose(&c.Open, &cur)
+		if got := open.CanClose(d); got != want2 {
+			return hx.Failf("canclose-retyped", "step %d: open %#x CanClose the re-typed descriptor %v = %v, rule table says %v", i, c.Open.Type, hist[len(hist)-1], got, want2)
+		}
+		// a twin built from scratch with the same values must be Equal and behave the same
+		twin, f := c19Build(&DescC19{Type: cur.Type, Event: cur.Event, HasPTS: true, PTS: cur.PTS, Num: cur.Num, Exp: cur.Exp,
+			Rest: ref.SpliceDesc{Prog: true, NotRestricted: true, UPID: ref.Hex{}, MID: []ref.SegUPID{}, Comps: []ref.SegOffset{}}, Decoded: i%2 == 0})
+		if f != nil {
+			return f
+		}
+		if !d.Equal(twin) || !twin.Equal(d) {
+			return hx.Failf("equal-retyped", "step %d: the re-typed descriptor %v is not Equal to a freshly built twin", i, hist[len(hist)-1])
+		}
+		if d.CanClose(open) != twin.CanClose(open) {
+			return hx.Failf("equal-congruence", "step %d: the re-typed descriptor %v and its freshly built twin close %#x differently", i, hist[len(hist)-1], c.Open.Type)
+		}
+	}
+	return nil
+}
+
+var propC19R = hx.Register(hx.Prop[CaseC19R]{ID: "C19", Variant: "retyped", Gen: genC19R, Check: checkC19R})
+
+func TestC19_Retyped(t *testing.T) {
+	c19Rule()
+	propC19R.Run(t)
 }
